@@ -84,37 +84,60 @@ func (c *cfacts) returnFacts() {
 
 func (c *cfacts) writerFacts() {
 	const rel = "response_writer.go"
+	// the implicit status: the one constant passed to `w.WriteHeader(…)` by Write / Flush themselves or by the
+	// responseWriter helpers they call (to any depth, WriteHeader itself excluded) — wherever the code puts it
 	for _, m := range []struct{ method, lean string }{{"Write", "writerWriteImplicitStatus"}, {"Flush", "writerFlushImplicitStatus"}} {
 		where := rel + " (*responseWriter)." + m.method
-		fd := c.funcIn(rel, "responseWriter", m.method)
-		is := c.theIf(fd, "!w.Written()", where)
-		wh := c.theCall(is.Body, "w.WriteHeader", 1, where)
-		c.add("C13", m.lean, "the argument of `w.WriteHeader` under `if !w.Written()` in "+where, c.num(wh.Args[0], where+" implicit status"))
+		var consts []ast.Expr
+		for _, fd := range c.methodClosure(rel, "responseWriter", m.method, map[string]bool{"WriteHeader": true}) {
+			for _, ce := range callsIn(fd, "w.WriteHeader") {
+				if len(ce.Args) == 1 {
+					consts = append(consts, ce.Args[0])
+				}
+			}
+		}
+		vals := map[int]bool{}
+		for _, e := range consts {
+			vals[c.num(e, where+" implicit status")] = true
+		}
+		if len(consts) == 0 || len(vals) != 1 {
+			c.fail("%s: expected the calls `w.WriteHeader(<const>)` reachable from it to agree on one constant, found %d call(s), %d value(s)", where, len(consts), len(vals))
+		}
+		v := 0
+		for k := range vals {
+			v = k
+		}
+		c.add("C13", m.lean, "the constant passed to `w.WriteHeader` by "+where+" (or a helper it calls) when nothing was written yet", v)
 	}
-	// if w.method != http.MethodHead { size, err = w.ResponseWriter.Write(b) … }
-	where := rel + " (*responseWriter).Write"
-	fd := c.funcIn(rel, "responseWriter", "Write")
-	var fw *ast.IfStmt
-	ast.Inspect(fd, func(x ast.Node) bool {
-		if is, ok := x.(*ast.IfStmt); ok && fw == nil {
-			if be, ok := is.Cond.(*ast.BinaryExpr); ok && exprText(be.X) == "w.method" {
-				fw = is
+	// the method whose responses carry no body: the one constant the writer's method is compared with anywhere in the file
+	where := rel + " (the comparison of the request method with a constant)"
+	var cmps []ast.Expr
+	ast.Inspect(c.file(rel), func(x ast.Node) bool {
+		if be, ok := x.(*ast.BinaryExpr); ok && (be.Op == token.NEQ || be.Op == token.EQL) {
+			l, r := exprText(be.X), exprText(be.Y)
+			if l == "w.method" || l == "method" {
+				cmps = append(cmps, be.Y)
+			} else if r == "w.method" || r == "method" {
+				cmps = append(cmps, be.X)
 			}
 		}
 		return true
 	})
-	if fw == nil {
-		c.fail("%s: `if w.method != … {` not found", where)
-		fw = &ast.IfStmt{Cond: &ast.BadExpr{}, Body: &ast.BlockStmt{}}
+	mvals := map[string]bool{}
+	for _, e := range cmps {
+		mvals[c.str(e, where)] = true
 	}
-	c.add("C13", "writerBodylessMethod", "the method for which the body is NOT forwarded: `if w.method != … { …w.ResponseWriter.Write(b) }` in "+where,
-		c.str(c.cmp(fw.Cond, "w.method", token.NEQ, where+" forwarding test"), where+" forwarding test"))
-	if len(callsIn(fw.Body, "w.ResponseWriter.Write")) != 1 || fw.Else != nil {
-		c.fail("%s: the forwarding `w.ResponseWriter.Write(b)` is no longer exactly what the method test guards", where)
+	if len(mvals) != 1 {
+		c.fail("%s: expected exactly one constant, found %d", where, len(mvals))
 	}
+	bodyless := ""
+	for k := range mvals {
+		bodyless = k
+	}
+	c.add("C13", "writerBodylessMethod", "the method for which the body is NOT forwarded: the constant `w.method` / `method` is compared with in "+rel, bodyless)
 	// func (w *responseWriter) WriteHeader(s int) { w.writeHeaderOnce.Do(func() { … }) } — what serialises the commit
 	where = rel + " (*responseWriter).WriteHeader"
-	fd = c.funcIn(rel, "responseWriter", "WriteHeader")
+	fd := c.funcIn(rel, "responseWriter", "WriteHeader")
 	guard := "none"
 	if len(fd.Body.List) == 1 {
 		if es, ok := fd.Body.List[0].(*ast.ExprStmt); ok {
